@@ -31,32 +31,32 @@ xv::Scenario make_scn(const drv::Program& p) {
   auto exec = [m](const drv::Op& o) {
     M& s = **m; long k = o.a; const std::string& n = o.name;
     using accessor = typename M::accessor;
-    if (n == "emp") { xv::call("emplace", k, 10 * k); bool ok = s.emplace(K::mk(k), V::template mk<R>(10 * k)); xv::ret(ok, 0); }
-    else if (n == "goe") { xv::call("getorput", k, 10 * k); auto r = s.get_or_emplace(K::mk(k), V::template mk<R>(10 * k)); xv::ret(r.second, V::of_acc(r.first)); }
-    else if (n == "gol") { xv::call("getorput", k, 10 * k);
+    if (n == "emp") { xv::call_blocking("emplace", k, 10 * k); bool ok = s.emplace(K::mk(k), V::template mk<R>(10 * k)); xv::ret(ok, 0); }
+    else if (n == "goe") { xv::call_blocking("getorput", k, 10 * k); auto r = s.get_or_emplace(K::mk(k), V::template mk<R>(10 * k)); xv::ret(r.second, V::of_acc(r.first)); }
+    else if (n == "gol") { xv::call_blocking("getorput", k, 10 * k);
       auto r = s.get_or_emplace_lazy(K::mk(k), [k] { return typename M::value_type(V::template mk<R>(10 * k)); }); xv::ret(r.second, V::of_acc(r.first)); }
-    else if (n == "era") { xv::call("erase", k); bool ok = s.erase(K::mk(k)); xv::ret(ok, 0); }
-    else if (n == "ext") { xv::call("extract", k); accessor acc; bool ok = s.extract(K::mk(k), acc); long v = ok ? V::of_acc(acc) : 0; xv::ret(ok, v);
+    else if (n == "era") { xv::call_blocking("erase", k); bool ok = s.erase(K::mk(k)); xv::ret(ok, 0); }
+    else if (n == "ext") { xv::call_blocking("extract", k); accessor acc; bool ok = s.extract(K::mk(k), acc); long v = ok ? V::of_acc(acc) : 0; xv::ret(ok, v);
     }
     else if (n == "get") { xv::call("xget", k); accessor acc; bool ok = s.try_get_value(K::mk(k), acc); long v = ok ? V::of_acc(acc) : 0; xv::ret(ok, v); }
-    else if (n == "fnd") { xv::call("find", k); auto it = s.find(K::mk(k)); bool ok = it != s.end(); long v = ok ? V::of_it((*it).second) : 0; it.reset(); xv::ret(ok, v); }
+    else if (n == "fnd") { xv::call_blocking("find", k); auto it = s.find(K::mk(k)); bool ok = it != s.end(); long v = ok ? V::of_it((*it).second) : 0; it.reset(); xv::ret(ok, v); }
     else if (n == "fer") {
-      xv::call("find", k); auto it = s.find(K::mk(k)); bool ok = it != s.end(); long v = ok ? V::of_it((*it).second) : 0; xv::ret(ok, v);
-      if (ok) { xv::call("it_erase", k); s.erase(it); it.reset(); xv::ret(0, 0); }
+      xv::call_blocking("find", k); auto it = s.find(K::mk(k)); bool ok = it != s.end(); long v = ok ? V::of_it((*it).second) : 0; xv::ret(ok, v);
+      if (ok) { xv::call_blocking("it_erase", k); s.erase(it); it.reset(); xv::ret(0, 0); }
     }
     else if (n == "itmv") {
       // move-assign a second iterator over one that holds a bucket lock; afterwards every bucket must be usable again
-      xv::call("find", k); auto it = s.find(K::mk(k)); bool ok = it != s.end(); long v = ok ? V::of_it((*it).second) : 0; xv::ret(ok, v);
+      xv::call_blocking("find", k); auto it = s.find(K::mk(k)); bool ok = it != s.end(); long v = ok ? V::of_it((*it).second) : 0; xv::ret(ok, v);
       it = typename M::iterator();
       it.reset();
     }
     else if (n == "trav" || n == "trave") {
       long epos = n == "trave" ? o.a : -1; long pos = 0;
-      xv::call("it_begin"); auto it = s.begin(); xv::ret(0, 0);
+      xv::call_blocking("it_begin"); auto it = s.begin(); xv::ret(0, 0);
       while (it != s.end() && pos < 16) {
         long kk = K::id((*it).first), vv = V::of_it((*it).second);
         xv::call("it_yield", kk, vv); xv::ret(0, 0);
-        if (pos == epos) { xv::call("it_erase", kk); s.erase(it); xv::ret(0, 0); }
+        if (pos == epos) { xv::call_blocking("it_erase", kk); s.erase(it); xv::ret(0, 0); }
         else ++it;
         pos++;
       }
